@@ -652,6 +652,7 @@ func distancesOnly(a Ans) Ans {
 
 func runC13(rc *runCtx) *RunResult {
 	res := &RunResult{}
+	miscEncode = true
 	g := gen.New()
 	t := g.T
 	descs := drawWorld(g, 3, 120)
